@@ -124,4 +124,227 @@ theorem ainv_of_ginv {P : Proto} {σ : State} {av : Avail} (h : GInv P σ av) (h
 theorem ainv_frame {P : Proto} {σ σ' : State} {av : Avail} (ha : AInv P σ av) (hb : σ'.boxes = σ.boxes) : AInv P σ' av :=
   ⟨fun hs => ginv_frame (ha.1 hs) (boxLenAt_congr hb) rfl rfl rfl, ha.2⟩
 
+theorem ainv_ginv_frame {P : Proto} {σ σ' : State} {av : Avail} (hg : GInv P σ av) (hs : av.started = true)
+    (hb : σ'.boxes = σ.boxes) : AInv P σ' av :=
+  ainv_of_ginv (ginv_frame hg (boxLenAt_congr hb) rfl rfl rfl) hs
+
+/-- application creation: the new record is consistent, the id is fresh -/
+theorem inv_create {P : Proto} {n : Nat} {σ : State} {snd : Addr} {gs ls : Schema} (hi : Inv P n σ) (hgs : gs.small) (hls : ls.small) :
+    Inv P n { σ with apps := upd σ.apps σ.nextApp (some { creator := snd, lschema := ls, g := { max := gs } }),
+                     nextApp := σ.nextApp + 1 } := by
+  refine ⟨boxInv_congr hi.box rfl rfl rfl, ?_, hi.locals_ok, ?_⟩
+  · intro x app hx
+    have hx' : upd σ.apps σ.nextApp (some { creator := snd, lschema := ls, g := { max := gs } }) x = some app := hx
+    by_cases hxa : x = σ.nextApp
+    · rw [hxa, upd_same] at hx'; cases hx'; exact ⟨storeOK_empty hgs, hls⟩
+    · rw [upd_other _ _ hxa] at hx'; exact hi.apps_ok x app hx'
+  · intro x hx
+    have hx' : σ.nextApp + 1 ≤ x := hx
+    have hxa : x ≠ σ.nextApp := by omega
+    have := hi.fresh x (by omega)
+    refine ⟨?_, this.2⟩
+    show upd σ.apps σ.nextApp _ x = none
+    rw [upd_other _ _ hxa]; exact this.1
+
+theorem txnCreate_inv {P : Proto} {n : Nat} {g : List Txn} {σ σ' : State} {av av' : Avail} {snd : Addr} {gs ls : Schema}
+    {accts : List Addr} {refs : List BoxRef} {script : List Effect} {l : List Nat}
+    (hi : Inv P n σ) (ha : AInv P σ av) (hgs : gs.small) (hls : ls.small) (hbud : groupBudget P g + P.maxBoxSize < M64)
+    (hf : Fits P (n + script.length)) (h : txnCreate P g σ av snd gs ls accts refs script = .ok (σ', av', l)) :
+    Inv P (n + script.length) σ' ∧ AInv P σ' av' := by
+  unfold txnCreate at h
+  dsimp only at h
+  split at h
+  · cases h
+  · rename_i av1 hst
+    have hi1 := inv_create (snd := snd) hi hgs hls
+    have ha1 : AInv P { σ with apps := upd σ.apps σ.nextApp (some { creator := snd, lschema := ls, g := { max := gs } }),
+                               nextApp := σ.nextApp + 1 } av := ainv_frame ha rfl
+    have hnone : ∀ r, r ∈ (refs.filter (fun x => x.1 = 0 && !x.2.isEmpty)).map (fun x => (σ.nextApp, x.2)) →
+        boxLenAt { σ with apps := upd σ.apps σ.nextApp (some { creator := snd, lschema := ls, g := { max := gs } }),
+                          nextApp := σ.nextApp + 1 } r = none := by
+      intro r hr
+      obtain ⟨x, _, hx⟩ := List.mem_map.mp hr
+      subst hx
+      show (match aget (σ.boxes σ.nextApp) x.2 with | some c => some c.length | none => none) = none
+      rw [(hi.fresh σ.nextApp (Nat.le_refl _)).2]; rfl
+    obtain ⟨hg1, hs1⟩ := startGroup_inv ha1 hbud hnone hst
+    obtain ⟨hi2, hg2, hs2⟩ := runEffects_inv script hi1 hg1 hf h
+    exact ⟨hi2, ainv_of_ginv hg2 (by rw [hs2, hs1])⟩
+
+theorem txnClear_inv {P : Proto} {n : Nat} {g : List Txn} {σ σ' : State} {av av' : Avail} {snd : Addr} {a : AppId} {l : List Nat}
+    (hi : Inv P n σ) (ha : AInv P σ av) (hbud : groupBudget P g + P.maxBoxSize < M64)
+    (h : txnClear P g σ av snd a = .ok (σ', av', l)) : Inv P n σ' ∧ AInv P σ' av' := by
+  unfold txnClear at h
+  split at h
+  · cases h
+  · split at h
+    · cases h
+    · rename_i av1 hst
+      cases h
+      refine ⟨inv_upd_local hi (fun s hs => by cases hs), ?_⟩
+      split at hst
+      · obtain ⟨hg1, hs1⟩ := startGroup_inv ha hbud (fun r hr => by cases hr) hst
+        exact ainv_ginv_frame hg1 hs1 rfl
+      · cases hst
+        exact ainv_frame ha rfl
+
+theorem optIn_inv {P : Proto} {n : Nat} {σ σ1 : State} {snd : Addr} {a : AppId} {app : App} {oc : OC}
+    (hi : Inv P n σ) (happ : σ.apps a = some app) (h : optIn σ snd a app oc = .ok σ1) :
+    Inv P n σ1 ∧ σ1.boxes = σ.boxes ∧ σ1.apps = σ.apps := by
+  unfold optIn at h
+  split at h
+  · split at h
+    · cases h
+    · cases h
+      refine ⟨inv_upd_local hi ?_, rfl, rfl⟩
+      intro s hs; cases hs
+      exact storeOK_empty (hi.apps_ok a app happ).2
+  · cases h; exact ⟨hi, rfl, rfl⟩
+
+theorem completion_inv {P : Proto} {n : Nat} {σ2 σ' : State} {av2 av' : Avail} {logs l : List Nat} {snd : Addr} {a : AppId} {oc : OC}
+    (hi : Inv P n σ2) (hg : GInv P σ2 av2) (hs : av2.started = true)
+    (h : completion σ2 av2 logs snd a oc = .ok (σ', av', l)) : Inv P n σ' ∧ AInv P σ' av' := by
+  unfold completion at h
+  split at h
+  · split at h
+    · cases h
+    · cases h
+      exact ⟨inv_upd_local hi (fun s hs => by cases hs), ainv_ginv_frame hg hs rfl⟩
+  · cases h
+    exact ⟨inv_del_app a hi, ainv_ginv_frame hg hs rfl⟩
+  · cases h
+    exact ⟨hi, ainv_of_ginv hg hs⟩
+
+theorem txnCall_inv {P : Proto} {n : Nat} {g : List Txn} {σ σ' : State} {av av' : Avail} {snd : Addr} {a : AppId} {oc : OC}
+    {accts : List Addr} {script : List Effect} {l : List Nat}
+    (hi : Inv P n σ) (ha : AInv P σ av) (hbud : groupBudget P g + P.maxBoxSize < M64)
+    (hf : Fits P (n + script.length)) (h : txnCall P g σ av snd a oc accts script = .ok (σ', av', l)) :
+    Inv P (n + script.length) σ' ∧ AInv P σ' av' := by
+  unfold txnCall at h
+  split at h
+  · cases h
+  · rename_i app happ
+    split at h
+    · cases h
+    · rename_i σ1 hopt
+      obtain ⟨hi1, hb1, _⟩ := optIn_inv hi happ hopt
+      split at h
+      · cases h
+      · rename_i av1 hst
+        obtain ⟨hg1, hs1⟩ := startGroup_inv (ainv_frame ha hb1) hbud (fun r hr => by cases hr) hst
+        split at h
+        · cases h
+        · rename_i σ2 av2 logs hrun
+          obtain ⟨hi2, hg2, hs2⟩ := runEffects_inv script hi1 hg1 hf hrun
+          exact completion_inv hi2 hg2 (by rw [hs2, hs1]) h
+
+theorem txnUpdate_inv {P : Proto} {n : Nat} {g : List Txn} {σ σ' : State} {av av' : Avail} {a : AppId} {gs : Schema} {l : List Nat}
+    (hi : Inv P n σ) (ha : AInv P σ av) (hgs : gs.small) (hbud : groupBudget P g + P.maxBoxSize < M64)
+    (h : txnUpdate P g σ av a gs = .ok (σ', av', l)) : Inv P n σ' ∧ AInv P σ' av' := by
+  unfold txnUpdate at h
+  split at h
+  · cases h
+  · rename_i app happ
+    split at h
+    · cases h
+    · rename_i av1 hst
+      obtain ⟨hg1, hs1⟩ := startGroup_inv ha hbud (fun r hr => by cases hr) hst
+      split at h
+      · cases h
+        exact ⟨hi, ainv_of_ginv hg1 hs1⟩
+      · split at h
+        · cases h
+        · rename_i g' hset
+          cases h
+          exact ⟨inv_upd_app hi ⟨app, happ⟩ (setSchema_ok (hi.apps_ok a app happ).1 hgs hset) (hi.apps_ok a app happ).2,
+                 ainv_ginv_frame hg1 hs1 rfl⟩
+
+/-- every transaction preserves the invariants -/
+theorem evalTxn_inv {P : Proto} {n : Nat} {g : List Txn} {σ σ' : State} {av av' : Avail} {t : Txn} {l : List Nat}
+    (hi : Inv P n σ) (ha : AInv P σ av) (hwf : t.wf) (hbud : groupBudget P g + P.maxBoxSize < M64)
+    (hf : Fits P (n + txnSize t)) (h : evalTxn P g σ av t = .ok (σ', av', l)) :
+    Inv P (n + txnSize t) σ' ∧ AInv P σ' av' := by
+  cases t with
+  | fund =>
+    unfold evalTxn at h; cases h
+    exact ⟨hi, ha⟩
+  | create snd gs ls accts refs script =>
+    unfold evalTxn at h
+    exact txnCreate_inv hi ha hwf.1 hwf.2 hbud hf h
+  | update snd a gs =>
+    unfold evalTxn at h
+    exact txnUpdate_inv hi ha hwf hbud h
+  | call snd a oc accts refs script =>
+    cases oc with
+    | clear =>
+      unfold evalTxn at h
+      obtain ⟨h1, h2⟩ := txnClear_inv hi ha hbud h
+      exact ⟨h1.mono (by omega), h2⟩
+    | noop => unfold evalTxn at h; exact txnCall_inv hi ha hbud hf h
+    | optin => unfold evalTxn at h; exact txnCall_inv hi ha hbud hf h
+    | closeout => unfold evalTxn at h; exact txnCall_inv hi ha hbud hf h
+    | delete => unfold evalTxn at h; exact txnCall_inv hi ha hbud hf h
+
+/-- the members of a group, in order -/
+theorem evalTxns_inv {P : Proto} {g : List Txn} (hbud : groupBudget P g + P.maxBoxSize < M64) (ts : List Txn) :
+    ∀ {n : Nat} {σ σ' : State} {av av' : Avail} {i : Nat} {ls : List (List Nat)},
+    Inv P n σ → AInv P σ av → (∀ t, t ∈ ts → t.wf) → Fits P (n + groupSize ts) →
+    evalTxns P g σ av ts i = .ok (σ', av', ls) → Inv P (n + groupSize ts) σ' ∧ AInv P σ' av' := by
+  induction ts with
+  | nil =>
+    intro n σ σ' av av' i ls hi ha _ _ h
+    unfold evalTxns at h
+    cases h
+    exact ⟨hi, ha⟩
+  | cons t ts ih =>
+    intro n σ σ' av av' i ls hi ha hwf hf h
+    unfold evalTxns at h
+    split at h
+    · cases h
+    · rename_i σ1 av1 l1 ht
+      split at h
+      · cases h
+      · rename_i σ2 av2 ls2 hts
+        cases h
+        have hsz : n + groupSize (t :: ts) = (n + txnSize t) + groupSize ts := by show n + (txnSize t + groupSize ts) = _; omega
+        obtain ⟨hi1, ha1⟩ := evalTxn_inv hi ha (hwf t (by simp)) hbud (hf.mono (by rw [hsz]; omega)) ht
+        rw [hsz] at hf ⊢
+        exact ih hi1 ha1 (fun x hx => hwf x (List.mem_cons_of_mem _ hx)) hf hts
+
+/-- well-formedness of a group: schemas small, the i/o budget far from 2^64 (≤ 16 transactions × 8 references × 2048) -/
+def groupOK (P : Proto) (g : List Txn) : Prop := (∀ t, t ∈ g → t.wf) ∧ groupBudget P g + P.maxBoxSize < M64
+
+theorem ainv_init (P : Proto) (σ : State) : AInv P σ {} := ⟨(fun h => by cases h), fun _ => rfl⟩
+
+theorem evalGroup_inv {P : Proto} {n : Nat} {σ σ' : State} {g : List Txn} {av' : Avail} {ls : List (List Nat)}
+    (hi : Inv P n σ) (hok : groupOK P g) (hf : Fits P (n + groupSize g)) (h : evalGroup P σ g = .ok (σ', av', ls)) :
+    Inv P (n + groupSize g) σ' ∧ AInv P σ' av' := by
+  unfold evalGroup at h
+  exact evalTxns_inv hok.2 g hi (ainv_init P σ) hok.1 hf h
+
+theorem applyGroup_inv {P : Proto} {n : Nat} {σ : State} {g : List Txn}
+    (hi : Inv P n σ) (hok : groupOK P g) (hf : Fits P (n + groupSize g)) : Inv P (n + groupSize g) (applyGroup P σ g) := by
+  unfold applyGroup
+  split
+  · rename_i σ' av' ls h
+    exact (evalGroup_inv hi hok hf h).1
+  · exact hi.mono (by omega)
+
+def historySize : List (List Txn) → Nat
+  | [] => 0
+  | g :: gs => groupSize g + historySize gs
+
+/-- a history of groups (accepted or rejected) preserves the invariant -/
+theorem applyGroups_inv {P : Proto} (gs : List (List Txn)) : ∀ {n : Nat} {σ : State},
+    Inv P n σ → (∀ g, g ∈ gs → groupOK P g) → Fits P (n + historySize gs) → Inv P (n + historySize gs) (applyGroups P σ gs) := by
+  induction gs with
+  | nil => intro n σ hi _ _; exact hi
+  | cons g gs ih =>
+    intro n σ hi hok hf
+    have hsz : n + historySize (g :: gs) = (n + groupSize g) + historySize gs := by show n + (groupSize g + historySize gs) = _; omega
+    have h1 := applyGroup_inv hi (hok g (by simp)) (hf.mono (by rw [hsz]; omega))
+    rw [hsz] at hf ⊢
+    show Inv P _ (List.foldl (applyGroup P) (applyGroup P σ g) gs)
+    exact ih h1 (fun x hx => hok x (List.mem_cons_of_mem _ hx)) hf
+
 end AlgoVerif.Model.AppStorage
